@@ -2,6 +2,7 @@
 mod common;
 mod conc;
 mod openf;
+mod probe;
 mod seq;
 
 fn main() {
@@ -14,6 +15,7 @@ fn main() {
     "seq" => seq::run(&args[2..]),
     "conc" => conc::run(&args[2..]),
     "open" => openf::run(&args[2..]),
+    "probe" => probe::run(&args[2..]),
     other => {
       eprintln!("unknown subcommand {other}");
       std::process::exit(2);
